@@ -13,10 +13,12 @@ func createLockFile(name string, perm os.FileMode) (LockFile, bool, error) {
 	if _, err := os.Stat(name); err == nil {
 		acquiredExisting = true
 	}
+	verifYield("lock.stat")
 	f, err := os.OpenFile(name, os.O_RDWR|os.O_CREATE, perm)
 	if err != nil {
 		return nil, false, err
 	}
+	verifYield("lock.open")
 	if err := syscall.Flock(int(f.Fd()), syscall.LOCK_EX|syscall.LOCK_NB); err != nil {
 		if err == syscall.EWOULDBLOCK {
 			err = os.ErrExist
